@@ -118,6 +118,26 @@ func buildRunModel(r *an.Run) *runModel {
 		}
 		rf = append(rf, an.CallsTo(g, osReadFile)...)
 	}
+	if len(rf) > 1 {
+		// other files are read too (the patches, a list of them): "the" read is the one made per source
+		// file — in a loop of Run, or in a helper called from a loop of Run
+		inLoop := func(b *ssa.BasicBlock) bool { return b.Parent() == f && an.LoopOf(f, b) != nil }
+		perFile := map[*ssa.Function]bool{}
+		for _, c := range an.Calls(f) {
+			if callee := an.StaticCallee(c); callee != nil && inLoop(c.Block()) {
+				for _, g := range helperGroup(callee, 1) {
+					perFile[g] = true
+				}
+			}
+		}
+		var kept []ssa.CallInstruction
+		for _, c := range rf {
+			if inLoop(c.Block()) || (c.Parent() != f && perFile[c.Parent()]) {
+				kept = append(kept, c)
+			}
+		}
+		rf = kept
+	}
 	if len(rf) != 1 {
 		return bad("exactly one os.ReadFile call")
 	}
